@@ -398,8 +398,13 @@ HandleWrite(cs, fsys, req, aw) ==
 (* Delete of a directory and rmdir of a file: unspecified (either refused   *)
 (* or carried out, reported truthfully).  Removing the root: unspecified.   *)
 (***************************************************************************)
+(* (the listing of an open directory names its entries through the path it was opened by: when a symbolic link is     *)
+(*  removed while a directory is open - it may be the link the directory was reached through - what the listing goes   *)
+(*  on to show is not specified)                                                                                        *)
 RemoveNode(cs, fsys, t) ==
-  LET n == Node(fsys, t) IN Outcome(Staled(cs, Parent(t)), fsys \ {n}, Res4(0), FALSE)
+  LET n == Node(fsys, t)
+      cs1 == Staled(cs, Parent(t))
+  IN Outcome(IF n.kind = "link" /\ cs1.dir.open THEN [cs1 EXCEPT !.dir.undef = TRUE] ELSE cs1, fsys \ {n}, Res4(0), FALSE)
 
 HandleRemove(cs, fsys, req, aw, wantDir) ==
   LET p == Norm(req.path) IN
